@@ -271,10 +271,10 @@ func (P *Program) Explore(fn *ssa.Function, cfg ExploreConfig) *Exploration {
 		cfg.MaxVisits = 3
 	}
 	if cfg.MaxPaths == 0 {
-		cfg.MaxPaths = 30000
+		cfg.MaxPaths = 400000
 	}
 	if cfg.MaxSteps == 0 {
-		cfg.MaxSteps = 6000000
+		cfg.MaxSteps = 80000000
 	}
 	x := &explorer{P: P, cfg: cfg, out: &Exploration{Fn: fn}}
 	if fn == nil || len(fn.Blocks) == 0 {
